@@ -68,4 +68,16 @@ def parsePt (ts : List String) : Option DPt :=
 
 def parseIntTok (s : String) : Option Int := s.toInt?
 
+/-- one-line rendering of a rational for messages: exact when short, else 20 significant digits
+(`repr` of a long rational wraps over several lines and would break the one-line `R` records) -/
+def qShow (q : Q) : String :=
+  let n := toString q.num
+  let d := toString q.den
+  if n.length + d.length ≤ 40 then (if q.den == 1 then n else s!"{n}/{d}") else
+  let e : Int := (n.length : Int) - (d.length : Int)
+  let sh : Int := 20 - e
+  let m : Int := if sh ≥ 0 then (q.num * (10 : Int) ^ sh.toNat) / (q.den : Int)
+                 else q.num / ((q.den : Int) * (10 : Int) ^ (-sh).toNat)
+  s!"~{m}e{-sh}"
+
 end DM
